@@ -11,20 +11,20 @@ namespace RRule
 
 inductive Family where
   | daily | weekly | yearlyMonthly | monthlyNth | yearlyNth | yearlyBymonthNth | yearlyEaster | yearlyWeekno
-  | monthlyWeekno
+  | monthlyWeekno | weeklyWeekno
   | hourly | hourlyByhour | minutely | minutelyByminute | minutelyByhour | minutelyByhm | secondly | secondlyByhm | secondlyBysecond
   deriving Repr, DecidableEq, Inhabited
 
 def Family.name : Family → String
   | .daily => "daily" | .weekly => "weekly" | .yearlyMonthly => "yearly_monthly" | .monthlyNth => "monthly_nth"
   | .yearlyNth => "yearly_nth" | .yearlyBymonthNth => "yearly_bymonth_nth" | .yearlyEaster => "yearly_easter"
-  | .yearlyWeekno => "yearly_weekno" | .monthlyWeekno => "monthly_weekno" | .hourly => "hourly" | .hourlyByhour => "hourly_byhour"
+  | .yearlyWeekno => "yearly_weekno" | .monthlyWeekno => "monthly_weekno" | .weeklyWeekno => "weekly_weekno" | .hourly => "hourly" | .hourlyByhour => "hourly_byhour"
   | .minutely => "minutely" | .minutelyByminute => "minutely_byminute" | .minutelyByhour => "minutely_byhour" | .minutelyByhm => "minutely_byhour_byminute" | .secondly => "secondly"
   | .secondlyByhm => "secondly_byhour_byminute" | .secondlyBysecond => "secondly_bysecond"
 
 def Family.all : List Family :=
   [.daily, .weekly, .yearlyMonthly, .monthlyNth, .yearlyNth, .yearlyBymonthNth, .yearlyEaster, .yearlyWeekno,
-   .monthlyWeekno,
+   .monthlyWeekno, .weeklyWeekno,
    .hourly, .hourlyByhour, .minutely, .minutelyByminute, .minutelyByhour, .minutelyByhm, .secondly, .secondlyByhm, .secondlyBysecond]
 
 /-- the optional list is given, non-empty, and satisfies `P` -/
@@ -137,6 +137,9 @@ def SupportedBy (a : Args) : Family → Prop
       (0 ≤ a.wkst.getD 0 ∧ a.wkst.getD 0 ≤ 6) ∧ someWith a.byweekno wnoOk
   | .monthlyWeekno => a.freq = 1 ∧ baseOk a ∧ a.byeaster = none ∧ plainDays a ∧
       (0 ≤ a.wkst.getD 0 ∧ a.wkst.getD 0 ≤ 6) ∧ someWith a.byweekno wnoOk
+  | .weeklyWeekno => a.freq = 2 ∧ baseOk a ∧ a.byeaster = none ∧ someWith a.byweekno wnoOk ∧
+      (a.bysetpos = none ∨ Cal.weekdayOfOrd (Spec.RRule.startOrd a) = a.wkst.getD 0) ∧
+      (0 ≤ a.wkst.getD 0 ∧ a.wkst.getD 0 ≤ 6) ∧ untilOk a
   | .hourly => a.freq = 4 ∧ baseOk a ∧ wArgOk a ∧ a.byeaster = none ∧ a.byhour = none ∧
       minutesOk a ∧ secondsOk a
   | .hourlyByhour => a.freq = 4 ∧ baseOk a ∧ wArgOk a ∧ a.byeaster = none ∧
@@ -174,7 +177,7 @@ def Family.periodsPerTurn : Family → Nat
 def inRange (a : Args) (f : Family) (n : Nat) : Prop :=
   match f with
   | .daily => Spec.RRule.startOrd a + n * a.interval ≤ Cal.maxOrdinal
-  | .weekly => Spec.RRule.weekStart (a.wkst.getD 0) (Spec.RRule.startOrd a) + 7 * (n * a.interval) + 7 ≤ Cal.maxOrdinal + 1
+  | .weekly | .weeklyWeekno => Spec.RRule.weekStart (a.wkst.getD 0) (Spec.RRule.startOrd a) + 7 * (n * a.interval) + 7 ≤ Cal.maxOrdinal + 1
   | .yearlyMonthly => (a.freq = 0 → a.dtstart.y + n * a.interval ≤ 9999) ∧
       (a.freq = 1 → (a.dtstart.y * 12 + (a.dtstart.m - 1) + n * a.interval) / 12 ≤ 9999)
   | .monthlyNth | .monthlyWeekno => (a.dtstart.y * 12 + (a.dtstart.m - 1) + n * a.interval) / 12 ≤ 9999
